@@ -138,7 +138,7 @@ impl Property for C14 {
             knobs: Knobs { max_nodes: 30, variant, ..Default::default() },
         };
         match tier {
-            Tier::Quick => vec![mk("plain", 40_000, 0), mk("indent", 40_000, 1)],
+            Tier::Quick => vec![mk("plain", 250_000, 0), mk("indent", 250_000, 1)],
             Tier::Thorough => vec![mk("plain", 1_000_000, 0), mk("indent", 1_000_000, 1)],
         }
     }
